@@ -30,13 +30,13 @@ PROPS = {
         explanation='Verus (unbounded, real text): heap_sort_into_vec/_pinned_vec append exactly the key-sorted enumeration of all (key,value) slots after the untouched prefix (every slot read once), for any number and length of worker vectors; Runner::run_map returns one result per worker in spawn order for every has_more() history. Verus (unbounded, real text, RW15/RW16): filtermap_fil_col::task and flatmap_fil_col::task return keys that are strictly increasing and are positions pulled by this worker (T1 assumed at the two pull sites), every value is a filter_map output that has a value and passes the filter; Fallible for Option never panics under has_value(). Kani (bounded): every collect kernel task returns exactly the survivors of the blocks delivered to it keyed by source position in strictly increasing key order (= the merge precondition, asserted by the merge contract stub); kernel glue and public API chains equal the std::iter chain. ' + MC_TEXT,
     ),
     'C02': dict(
-        level='model_checking', verus_units=['utils', 'core'],
+        level='model_checking', verus_units=['utils', 'core', 'merge'],
         kani=True,
         kani_select=dict(quick=r'^k_order_|^k_task_\w+_find_n(3c1|2c1|1c1)|^k_glue_(map_fil|filtermap_fil)_find_n3c1|^k_api_par2_(map_fil_find|fil_first|map_any|fmap_fil_all|empty_find|fil_fil_find)',
                          thorough=r'^k_order_|^k_task_\w+_find_|^k_glue_\w+_find_|^k_api_par2_\w+_(find|first|any|all)_n'),
         trusted_base=[T1, T5, T6, A64, ARITH, RSCHED, STUBS, MODEL],
         assumptions=[TASK_BOUND, 'early exit: for every frontier f >= the block in which some worker matched, blocks <= f are delivered to their owners (exactly the possibilities under T1)'],
-        explanation='Verus (unbounded): maybe_reduce case table (None neutral, reduce applied once in order on Some/Some); Runner::reduce folds every worker result once in spawn order. Kani (bounded): each find kernel task returns the first survivor of its blocks with its source index; kernel glue with the min-by-index reduce returns the global first match for every block->worker table and every early-exit frontier, None iff nothing matches; find/first/any/all through the public API agree with std. ' + MC_TEXT,
+        explanation='Verus (unbounded): maybe_reduce case table (None neutral, reduce applied once in order on Some/Some); Runner::reduce folds every worker result once in spawn order. Lemma L2 (unit merge, pure spec): min-by-index over the per-worker first matches is the global first match for any number of workers, any assignment and any admissible early-exit frontier. Kani (bounded): each find kernel task returns the first survivor of its blocks with its source index; kernel glue with the min-by-index reduce returns the global first match for every block->worker table and every early-exit frontier, None iff nothing matches; find/first/any/all through the public API agree with std. ' + MC_TEXT,
     ),
     'C03': dict(
         level='model_checking', verus_units=['utils', 'core', 'redtasks'],
